@@ -65,9 +65,20 @@ def main():
         reach = sorted(set(start + u * j for u, n in cands for j in range(1, n + 1)))
         bad = sorted(set(rng.choice(reach) for _ in range(rng.choice([0, 1, 2, 3, 5]))))
         script.append("DCS %d %d %s | %s" % (start, target, " ".join(map(str, bad)), " ".join("%d %d" % cn for cn in cands)))
+    # (a'') control::RRT as a whole against RrtModel.crrt_run: integer line, scripted state sampler and candidate controls, goal-bias
+    #       draws from the RNG tape, linear nearest neighbours; tree (states, parents, controls, steps), reported path, flag, difference
+    for i in range(300 if quick else 12000):
+        k = rng.choice([1, 1, 2, 3]); iters = rng.choice([0, 1, 4, 12, 40]); goal = rng.randint(-25, 25); thr = rng.choice([1, 1, 2, 4])
+        mind = rng.choice([1, 1, 2, 3]); maxd = mind + rng.choice([0, 3, 8])
+        starts = [rng.randint(-5, 5) for _ in range(rng.choice([1, 1, 2]))]
+        bad = sorted(set(rng.randint(-30, 30) for _ in range(rng.choice([0, 1, 3, 6, 12]))) - set(starts))
+        samples = [rng.randint(-30, 30) for _ in range(rng.choice([0, 2, iters, iters + 3]))]
+        us = [(rng.choice([-4, -3, -2, -1, 1, 2, 3, 4]), rng.randint(max(0, mind - 1), maxd)) for _ in range(k * iters + rng.choice([0, 0, 3]))]
+        script.append("CRRT %d %d %d %d %d %d %d %g B %d %s S %d %s P %d %s U %d %s" % (goal, thr, mind, maxd, k, iters, rng.randint(0, 10 ** 6), rng.choice([0.0, 0.05, 0.25, 0.5]),
+                      len(bad), " ".join(map(str, bad)), len(starts), " ".join(map(str, starts)), len(samples), " ".join(map(str, samples)), len(us), " ".join("%d %d" % q for q in us)))
     rc, o, e, s = vf.sh([drv], input="\n".join(script) + "\n", timeout=600); c.step("correspond:impl-pwv", drv, s, rc == 0)
     rc2, o2, e2, s2 = vf.sh([model, "control"], input="\n".join(script) + "\n", timeout=600); c.step("correspond:model-pwv", model + " control", s2, rc2 == 0)
-    ndiff = 0; first_diff = None; npred = 0; first_pred = None
+    ndiff = 0; first_diff = None; npred = 0; first_pred = None; crrt_stats = collections.Counter()
     io, mo = o.split("\n"), o2.split("\n")
     for k, l in enumerate(script):
         a = io[k] if k < len(io) else "?"; b = mo[k] if k < len(mo) else "?"
@@ -76,6 +87,37 @@ def main():
             if first_diff is None or len(l) < len(first_diff[0]): first_diff = (l, a, b)
         # the statement on the implementation's own answer: counts and states consistent with the script
         w = a.replace("|", " ").split()
+        if l.startswith("CRRT "):
+            # the statement on the implementation's own tree and report: every tree motion replays on valid states with at least the
+            # minimum duration; the path is a chain of tree motions from a start; exact => inside the goal threshold
+            try:
+                lw = l.split(); goal, thr, mind = int(lw[1]), int(lw[2]), int(lw[3]); nb = int(lw[10]); bad = set(map(int, lw[11:11 + nb])); o0 = 11 + nb
+                ns = int(lw[o0 + 1]); starts = list(map(int, lw[o0 + 2:o0 + 2 + ns]))
+                parts = [x.strip() for x in a.split("|")]
+                nodes = [tuple(map(int, t.split())) for t in parts[0].split(";")[1:] if t.strip()]
+                why = None
+                for j, nd in enumerate(nodes):
+                    if nd[1] < 0:
+                        if nd[0] not in starts: why = "root %d is not a start state" % j
+                    else:
+                        x, pi, u, st = nd; px = nodes[pi][0]
+                        if not (pi < j) or st < mind or px + u * st != x or any((px + u * q) in bad for q in range(1, st + 1)): why = "tree motion %d -> %d (control %d x %d steps) does not replay on valid states / is shorter than the minimum duration" % (pi, j, u, st)
+                rep = parts[1].split()
+                crrt_stats["runs"] += 1; crrt_stats["nodes"] += len(nodes); crrt_stats["none" if rep[0] != "1" else ("exact" if rep[1] == "0" else "approximate")] += 1
+                if rep[0] == "1":
+                    path = [tuple(map(int, t.split())) for t in parts[2].split(";") if t.strip()]
+                    edges = set((nodes[nd[1]][0], nd[0], nd[2], nd[3]) for nd in nodes if nd[1] >= 0)
+                    if not path or path[0][0] not in starts: why = "the reported path does not begin at a start state"
+                    elif any((p0[0], p1[0], p1[1], p1[2]) not in edges for p0, p1 in zip(path, path[1:])): why = "the reported path contains a segment that is not a tree motion"
+                    elif rep[1] == "0" and not (abs(path[-1][0] - goal) < thr): why = "exact solution ends %d from the goal (threshold %d)" % (abs(path[-1][0] - goal), thr)
+                    elif rep[1] == "1" and int(rep[2]) != abs(path[-1][0] - goal): why = "approximate solution reports difference %s, its last state is %d from the goal" % (rep[2], abs(path[-1][0] - goal))
+                if why:
+                    npred += 1
+                    if first_pred is None: first_pred = (l, "control::RRT (scripted): " + why)
+            except Exception as ex:
+                npred += 1
+                if first_pred is None: first_pred = (l, "control::RRT (scripted): no observation (%s) %s" % (ex, a[:80]))
+            continue
         if l.startswith("DCS "):
             # the statement on the implementation's own answer: the returned control run for the returned number of steps from
             # the source stays valid and ends at the returned state; the control is one of the candidates, with at most its count
@@ -162,8 +204,8 @@ def main():
             ndiff += 1
             if first_diff is None: first_diff = (j, "admission rule '%s'" % v, "predicate '%s'" % msg)
     c.cov.update({"evaluations": len(script) + len(jobs), "traces_validated_against_impl": len(script) + stats["runs"], "distinct_nontrivial": stats["status_5"] + stats["status_6"],
-                  "rule": "(a) %d scripted propagateWhileValid / propagate / SimpleDirectedControlSampler::getBestControl (1-6 scripted candidates) calls (0..40 steps, 0..3 invalid states placed on or just after the trajectory), all three entry points compared exactly; (b) %d runs: 8 control planners (RRT with / without intermediate states, SST, EST, KPIECE1, PDST, SyclopRRT, SyclopEST) x systems {first-order point, car with heading wrap; directed control sampler with k = 1 (default), 2, 4, 8 candidates} x environments x queries x step size {.01-.1} x min/max duration {1-5, +0..30} x threshold x seeds; non-trivial = run reporting a solution (replayed step by step)" % (len(script), len(jobs)),
-                  "disagreements": ndiff, "predicate_failures": npred, "predicate_failures_by_kind": dict(failures), "failing_runs": failing[:40], "histogram": dict(stats)})
+                  "rule": "(a) %d scripted propagateWhileValid / propagate / SimpleDirectedControlSampler::getBestControl (1-6 scripted candidates) calls and scripted control::RRT runs (whole tree and report compared) (0..40 steps, 0..3 invalid states placed on or just after the trajectory), all three entry points compared exactly; (b) %d runs: 8 control planners (RRT with / without intermediate states, SST, EST, KPIECE1, PDST, SyclopRRT, SyclopEST) x systems {first-order point, car with heading wrap; directed control sampler with k = 1 (default), 2, 4, 8 candidates} x environments x queries x step size {.01-.1} x min/max duration {1-5, +0..30} x threshold x seeds; non-trivial = run reporting a solution (replayed step by step)" % (len(script), len(jobs)),
+                  "disagreements": ndiff, "predicate_failures": npred, "control_rrt_scripts": dict(crrt_stats), "predicate_failures_by_kind": dict(failures), "failing_runs": failing[:40], "histogram": dict(stats)})
     c.cov["samples"] = jobs[:3]
     c.cov["trusted_base"] += ["extraction (ExtrOcamlBasic) + extract/control_driver.ml; harness/control_driver.cpp (its own copy of both propagators, replay tolerance 1e-9 in the state-space metric)"]
     c.assumptions += ["partial: propagateWhileValid and the replay of chains of its results are proved; that each planner assembles its path only from such results is checked per run",
